@@ -61,3 +61,21 @@ Definition ex_ext : mext stored :=
      x_dict := fun c => if clsn_eqb c GC then [(L "K", SScalar (IVInt 7))]
                         else if clsn_eqb c GS then [(L "P", SList [IVInt 1; IVInt 2; IVInt 3])] else [] |}.
 Definition ex_inject := inject (fun s : stored => s) ex_ext.
+
+(** dcmstack --dest-dir out d0 d1  where both directories hold a series 8 / "b c" *)
+Definition ex_args3 : args :=
+  {| a_src_dirs := [L "d0"; L "d1"]; a_force_read := false; a_file_ext := dflt_file_ext; a_dest_dir := Some (L "out");
+     a_output_name := None; a_output_ext := dflt_output_ext; a_dump_meta := false;
+     a_embed_meta := false; a_group_by := None; a_voxel_order := dflt_voxel_order; a_time_var := None;
+     a_vector_var := None; a_time_order := None; a_vector_order := None; a_list_translators := false;
+     a_disable_translator := None; a_extract_private := false; a_include_regex := [];
+     a_exclude_regex := []; a_default_regexes := false; a_verbose := false; a_strict := false;
+     a_version := false |}.
+Definition ex_inputs3 : inputs :=
+  {| i_glob := fun p => [p];
+     i_lines := fun _ => Err ECrash;
+     i_groups := fun _ => Ok [ex_group 8 "b c"];
+     i_stack := fun _ => Ok tt;
+     i_nifti := fun _ _ => Ok tt |}.
+Definition all_paths (o : outputs) : list str :=
+  match o with ORun ds _ => List.concat (map (fun d => map fo_path (do_files d)) ds) | _ => [] end.
